@@ -7,3 +7,8 @@ open Just.C12
 #print axioms context_multiline
 #print axioms context_always
 #print axioms context_end_of_file
+#print axioms located_of_spans
+#print axioms tokenize_good
+#print axioms tokenize_ok
+#print axioms tokenize_err
+#print axioms no_line_is_end_of_file
